@@ -320,6 +320,7 @@ func c11Scenarios(thorough bool) []c11scn {
 	}
 	out = append(out, c11Announcements(u, tips, thorough)...)
 	out = append(out, c11Rewrites(u, tips)...)
+	out = append(out, c11ForgedCheckpoints(u, tips)...)
 	out = append(out, c11Requests(u, tips)...)
 	return out
 }
